@@ -466,5 +466,8 @@ pub fn run(p: &Params) -> Run {
     }
     run.notes.push("eager schedules: the writer also appends between two polls of the reader (driver kind followd compares delivered lines only); bursts of 64-300 KiB of complete lines plus a tail completed while the consumer is busy; executor level: the real FollowFileExecutor with and without --head, SELECT and aggregate, stdout captured (oracle only)".to_owned());
     run.notes.push("the real reader's reads are never short (regular file): `poll k` with k+1 < cap is covered by the theorems only".to_owned());
+    // the command-line program with --follow [--head] on a file that does not grow (oracle only; see cli.rs)
+    let mut crng = Rng::new(p.seed ^ 0xC10C11);
+    crate::cli::follow_stream(&mut run, &mut crng, p.n(6, 40));
     run
 }
